@@ -727,6 +727,14 @@ class World:
         after = self.snapshot()
         bad = op["bad"]
         sig0 = f"{op['op']}:{bad}:{err}"
+        if bad == "transform_visitor_raises_detached_root_attached_children" and before != after:
+            # one known finding, whatever exactly was left behind (known_findings.json)
+            raise self.viol(
+                "C19.1 registry-changed-by-rejected-op",
+                "C19.1:transform-of-detached-root-over-attached-children",
+                f"{op['op']} of a detached root whose children are still attached was rejected with {err} after some of those children had already been replaced for good",
+                bad=bad,
+            )
         if before["__registry__"] != after["__registry__"]:
             added = set(after["__registry__"]) - set(before["__registry__"])
             removed = set(before["__registry__"]) - set(after["__registry__"])
@@ -1509,7 +1517,15 @@ class Gen:
 
     def rj_transform_raises(self) -> dict[str, Any] | None:
         r = self.r("rj12")
-        ref = self.pick_ref(lambda o: not o.detached, root_bias=0.7)
+        if r.random() < 0.3:
+            # a DETACHED tree (visited in place, no protective clone): a failed transform must leave it as it was too
+            names = [h for h, x in self.w.handles.items() if x.detached and self.w.is_free(x) and not self.w.is_retired(x) and self.clean(x)]
+            full = [h for h in names if all(y.detached for y in walk(self.w.handles[h]))]
+            # (a detached root over still-attached children -- detach(only_self=True) -- is a known finding: rarely)
+            names = names if r.random() < 0.1 else full
+            ref = {"h": r.choice(names), "path": []} if names else None
+        else:
+            ref = self.pick_ref(lambda o: not o.detached, root_bias=0.7)
         if ref is None:
             return None
         o = self.w.node_at(ref)
@@ -1521,7 +1537,7 @@ class Gen:
             if L.PROP_FIELDS[c]:
                 rules[c] = ["rewrite", L.PROP_FIELDS[c][0][0], "tr"]
         m = sum(1 for x in walk(o) if cname(x) in rules)
-        return {"act": "transform", "n": ref, "rules": rules, "fault": {"site": "lvisit", "k": r.randint(1, max(1, m))}, "bad": "transform_visitor_raises"}
+        return {"act": "transform", "n": ref, "rules": rules, "fault": {"site": "lvisit", "k": r.randint(1, max(1, m))}, "bad": "transform_visitor_raises" + (("_detached_tree" if all(y.detached for y in walk(o)) else "_detached_root_attached_children") if o.detached else "")}
 
 
 def _has_ref(spec: Any) -> bool:
